@@ -137,6 +137,10 @@ package updown
 //@     invariant len(sent(cErr)) == 0 && len(sent(cReadDone)) == 0
 //@   loop 2:
 //@     invariant len(sent(cErr)) == 0 && len(sent(cReadDone)) == 0 && len(snpPos) == len(snps)
+//@     invariant [c09.positions] freshslice(snpPos) && len(record[1]) > 0 && len(snps) == splitn(record[1], "|") && forall(j, 0, len(snps), snps[j] == splitat(record[1], "|", j)) && forall(j, 0, range_i, snpPos[j] == atoi(snps[j][1:len(snps[j])-1]))
+//@   before send#7: assert [c09.row.fields] udL.id == record[0] && udL.ambCount == amb_count && sameslice(udL.ambs, a)
+//@   before send#7: assert [c09.row.nosnps] implies(len(record[1]) == 0, len(udL.snps) == 0 && len(udL.snpsPos) == 0 && len(udL.snpsSorted) == 0)
+//@   before send#7: assert [c09.row.snps] implies(len(record[1]) > 0, len(udL.snps) == splitn(record[1], "|") && len(udL.snpsPos) == len(udL.snps) && len(udL.snpsSorted) == len(udL.snps) && forall(j, 0, len(udL.snps), udL.snps[j] == splitat(record[1], "|", j) && udL.snpsPos[j] == atoi(udL.snps[j][1:len(udL.snps[j])-1])))
 //@   ensures [c18.exclusive] len(sent(cErr)) + len(sent(cReadDone)) == 1
 //@   ensures [c18.empty] implies(len(lines(r)) == 0, len(sent(cErr)) == 1)
 
